@@ -456,7 +456,8 @@ def r6_group_and_merge(ctx):
         f = prog.find_func(name)
         gb = astx.unique_def(f.node, "grouped_ballots")
         nb = astx.unique_def(f.node, "new_ballots")
-        good = isinstance(gb, astx.LCOMP) and astx.u(gb.elt) == "list(result)" and astx.u(gb.generators[0].iter) == astx.A(f"groupby({src}, key=lambda ballot: ballot.ranking)") and not gb.generators[0].ifs \
+        grp_var = astx.u(gb.generators[0].target.elts[1]) if isinstance(gb, astx.LCOMP) and isinstance(gb.generators[0].target, ast.Tuple) and len(gb.generators[0].target.elts) == 2 else "?"
+        good = isinstance(gb, astx.LCOMP) and astx.u(gb.elt) == f"list({grp_var})" and astx.u(gb.generators[0].iter) == astx.A(f"groupby({src}, key=lambda ballot: ballot.ranking)") and not gb.generators[0].ifs \
             and nb is not None and astx.u(nb) == astx.A("tuple([merge_ballots(b) for b in grouped_ballots])")
         rets = [n for n in astx.walk_own(f.node) if isinstance(n, ast.Return)]
         good = good and len(rets) == 1 and astx.u(rets[0].value) == "PreferenceProfile(ballots=new_ballots)"
